@@ -17,6 +17,7 @@ mod c09;
 mod c10;
 mod c11;
 mod c12;
+mod c13;
 mod genprog;
 mod irdecode;
 mod prog;
@@ -131,6 +132,10 @@ fn main() {
         "C12" => {
             c12::run(&rep);
             (c12::RULE, false, vec![A_CLI, "the driver's data-loading sequence (DataParser over every data line, then DS=0) is replicated in process and cross-checked against the binary's memory dump"])
+        }
+        "C13" => {
+            c13::run(&rep);
+            (c13::RULE, false, vec![A_CLI, "comparison of macro program vs expanded program uses the same assembler, isolating substitution and bookkeeping", "a generated use whose reference expansion is itself invalid code is only required to be rejected"])
         }
         "C06" => {
             c06::run(&rep);
